@@ -117,6 +117,7 @@ def batches(ctx):
     quick = ctx.quick()
     cases = [gen_case(rng, 5, 4 if i % 2 else 3, 3, single=(i % 5 == 0)) for i in range(1600 if quick else 12000)]
     cases += [gen_biased(rng, 7, 4, 3) for _ in range(400 if quick else 4000)]
+    cases += [gen_biased(rng, 8, 4, 4) for _ in range(900 if quick else 6000)]   # deeper chains, four families: label decoding has inherited sets to hand down
     ctx.dist["seven"] = {"cases": len(cases), "single_family": sum(1 for i in range(len(cases)) if i % 5 == 0),
                          "infinite_hgt": sum(1 for c in cases if c["costs"]["hgt"] == R.INF)}
     yield Batch(
